@@ -79,6 +79,7 @@ MANUAL = [
     ("C02", "attribute_parameter_with_default_in_model_proto", r"model_proto:checker:attr_ref_in_main_graph", "same defect as C01: reference attributes in the main graph of to_model_proto()"),
     ("C07", "replacement_initializer_same_name_twice", r"(invalid|violation_not_executable|violation_values):abs_plus_zero_init.*",
      "a replacement that creates an initializer with a fixed name, applied twice in one graph: the second application refers to '<name>_1' which is never registered"),
+    ("C07", "pattern_node_more_outputs_than_host", r"raise:split_first:.*", "a pattern node declared with two outputs matched against a host Split with one output: the matcher accepts it (see the C06 finding) and applying the replacement raises ValueError"),
     ("C07", "multi_output_pattern_insertion_point", r"(invalid|violation_not_executable):neg_and_abs.*",
      "patterns with several output nodes: the replacement nodes are inserted at the position of one output node (documented TODO); a consumer placed earlier uses a value before its definition"),
     ("C11", "advanced_indices_separated_by_slice", r"(eager|graph)_different_tensor:.*", "A[-1, :, v] with v a 1-D tensor: NumPy moves the dimension of non-adjacent advanced indices to the front of the result, the converter and eager mode index axis by axis (same elements, transposed layout)"),
